@@ -71,16 +71,31 @@ structure RCfg where
   set of every child's all-of trigger before the starting nodes run (fix bc0a763; before: what a
   previous, interrupted run had collected — also through the file — stayed in the triggers) -/
   resetReceived : Bool
+  /-- `Macro.__setstate__` re-forges the value links `macro input → child input` without sending the
+  value again (now: through the setter, which a child marked `running` refuses — input lock) -/
+  silentRelink : Bool
+  /-- unpickling a composite restores every data-connection list in its original order (now: each
+  `__setstate__` re-connects in stored order and `connect` prepends, so one unpickling REVERSES every
+  list — the subject of C07) -/
+  faithfulOrder : Bool
   deriving Repr, DecidableEq
 
 /-- the tree as originally pinned -/
-def RCfg.original : RCfg := { cache := Cache.Cfg.pinned, dropInFlight := false, resetReceived := false }
+def RCfg.original : RCfg :=
+  { cache := Cache.Cfg.pinned, dropInFlight := false, resetReceived := false, silentRelink := false,
+    faithfulOrder := false }
 /-- after fix 0699958 (cache dropped on failure), before fix bc0a763 -/
-def RCfg.stale : RCfg := { cache := Cache.Cfg.repaired, dropInFlight := false, resetReceived := false }
+def RCfg.stale : RCfg :=
+  { cache := Cache.Cfg.repaired, dropInFlight := false, resetReceived := false, silentRelink := false,
+    faithfulOrder := false }
 /-- /repo as it is now (fixes 0699958 and bc0a763 applied) -/
-def RCfg.now : RCfg := { cache := Cache.Cfg.repaired, dropInFlight := false, resetReceived := true }
-/-- with the proposed repair fixes/C08-inflight-cache.patch -/
-def RCfg.repaired : RCfg := { cache := Cache.Cfg.repaired, dropInFlight := true, resetReceived := true }
+def RCfg.now : RCfg :=
+  { cache := Cache.Cfg.repaired, dropInFlight := false, resetReceived := true, silentRelink := false,
+    faithfulOrder := false }
+/-- with the proposed repairs fixes/C08-inflight-cache.patch and fixes/C08-relink-on-load.patch -/
+def RCfg.repaired : RCfg :=
+  { cache := Cache.Cfg.repaired, dropInFlight := true, resetReceived := true, silentRelink := true,
+    faithfulOrder := true }
 
 /-! ### the file -/
 structure Snap where
@@ -103,6 +118,18 @@ def snapshot (rc : RCfg) (s : S) : Snap :=
       | .out => if rc.dropInFlight then none else some (s.args i)
       | .failed => if rc.cache.clearOnFail then none else some (s.args i)
       | .idle => none }
+
+/-- does `Node.load` raise?  `linkTargets`: the children of a macro level whose inputs receive a macro
+input by value link.  (A macro that was running when a child of it wrote the checkpoint is itself such
+a target when it sits in an outer macro.) -/
+def loadRefused (rc : RCfg) (linkTargets : List Nat) (sn : Snap) : Bool :=
+  !rc.silentRelink && linkTargets.any sn.running
+
+/-- the data wiring of one level after `Node.load`: `load` = unpickle + `__setstate__(inst.__getstate__())`
+on the root, so the ROOT level is restored twice (order back to the original), every deeper level once
+(fetch priority of multiply connected inputs reversed) -/
+def reloadDag (rc : RCfg) (isRoot : Bool) (d : Dag) : Dag :=
+  if rc.faithfulOrder || isRoot then d else { d with slots := fun i => (d.slots i).map List.reverse }
 
 /-- the documented procedure after `load`: `failed = False` (recovery) / `running = False`
 (checkpoint: the process is gone) on every node -/
